@@ -27,16 +27,21 @@ CONSTANTS MaxOps
 
 \* ---- attributes
 NoGe == 0 - 999   NoLen == 999   Inf == 99
-Attrs0 == [ge |-> NoGe, minlen |-> 0, maxlen |-> NoLen, mino |-> 0, maxo |-> 1, nil |-> TRUE]
-KW == {"min1", "nil0", "ge5", "len3"}
+\* pk: the persistence argument primary_key (-1 = not stated); vals: the enumeration of allowed values ("none" = open)
+Attrs0 == [ge |-> NoGe, minlen |-> 0, maxlen |-> NoLen, mino |-> 0, maxo |-> 1, nil |-> TRUE, pk |-> 0 - 1, vals |-> "none"]
+KW == {"min1", "nil0", "ge5", "len3", "pk1", "pk0", "v03", "v36"}
 Apply(a, kw) == CASE kw = "min1" -> [a EXCEPT !.mino = 1]
                   [] kw = "nil0" -> [a EXCEPT !.nil = FALSE]
                   [] kw = "ge5"  -> [a EXCEPT !.ge = 5]
                   [] kw = "len3" -> [a EXCEPT !.maxlen = 3]
+                  [] kw = "pk1"  -> [a EXCEPT !.pk = 1]
+                  [] kw = "pk0"  -> [a EXCEPT !.pk = 0]
+                  [] kw = "v03"  -> [a EXCEPT !.vals = "v03"]      \* values = the probe texts of length 0 and 3
+                  [] kw = "v36"  -> [a EXCEPT !.vals = "v36"]      \* values = the probe texts of length 3 and 6
 RECURSIVE ApplyAll(_, _)
 ApplyAll(a, kws) == IF kws = <<>> THEN a ELSE ApplyAll(Apply(a, Head(kws)), Tail(kws))
-KwFor(base) == CASE base = "int" -> {"min1", "nil0", "ge5"}
-                 [] base = "str" -> {"min1", "nil0", "len3"}
+KwFor(base) == CASE base = "int" -> {"min1", "nil0", "ge5", "pk1", "pk0"}
+                 [] base = "str" -> {"min1", "nil0", "len3", "pk1", "pk0", "v03", "v36"}
                  [] OTHER        -> {"min1", "nil0"}
 \* Mandatory(): min_occurs=1, nillable=False, and min_len=1 for text
 Mand(a, base) == IF base = "str" THEN [a EXCEPT !.mino = 1, !.nil = FALSE, !.minlen = 1]
@@ -75,7 +80,9 @@ CaOf(p, i, f) == LET mine == SelectSeq(p[i].ca, LAMBDA c : c.f = f)
 \* integers -1, 5, 7 (validate_native); texts of length 0, 3, 6 (validate_string)
 Verdicts(base, a) ==
   IF base = "int" THEN << a.ge = NoGe \/ (0 - 1) >= a.ge, a.ge = NoGe \/ 5 >= a.ge, a.ge = NoGe \/ 7 >= a.ge >>
-  ELSE IF base = "str" THEN << 0 >= a.minlen /\ 0 <= a.maxlen, 3 >= a.minlen /\ 3 <= a.maxlen, 6 >= a.minlen /\ 6 <= a.maxlen >>
+  ELSE IF base = "str" THEN << 0 >= a.minlen /\ 0 <= a.maxlen /\ a.vals \in {"none", "v03"},
+                               3 >= a.minlen /\ 3 <= a.maxlen,
+                               6 >= a.minlen /\ 6 <= a.maxlen /\ a.vals \in {"none", "v36"} >>
   ELSE <<>>
 FieldProj(p, i, fld) ==
   LET t == p[fld.t] IN
